@@ -228,7 +228,7 @@ pub fn recipes(subs: &[Subject], rng: &mut Rng, numbers_everywhere: bool) -> Vec
         let t64 = Felt::TWO.pow(64u64);
         for i in 0..nseg {
             let b = felt_at(&seg(i, "begin_addr"));
-            for (lab, x) in [("2^64-1", t64 - Felt::ONE), ("2^64-2", t64 - Felt::TWO), ("2^63", Felt::TWO.pow(63u64)), ("2^64", t64), ("p-1", Felt::ZERO - Felt::ONE)] {
+            for (lab, x) in [("2^20", Felt::TWO.pow(20u64)), ("2^26", Felt::TWO.pow(26u64)), ("2^32", Felt::TWO.pow(32u64)), ("2^64-1", t64 - Felt::ONE), ("2^64-2", t64 - Felt::TWO), ("2^63", Felt::TWO.pow(63u64)), ("2^64", t64), ("p-1", Felt::ZERO - Felt::ONE)] {
                 out.push(Recipe { subj: si, label: format!("segment[{i}].len={lab}"), edits: vec![(seg(i, "stop_ptr"), Edit::Set(hexv(b + x)))] });
                 if nseg > 1 && i != 1 {
                     out.push(Recipe { subj: si, label: format!("segment[{i}].len={lab} & execution.begin=2^64-2"),
@@ -236,7 +236,7 @@ pub fn recipes(subs: &[Subject], rng: &mut Rng, numbers_everywhere: bool) -> Vec
                 }
             }
         }
-        if nseg > 1 { for v in [t64 - Felt::TWO, t64 - Felt::THREE] { out.push(Recipe { subj: si, label: format!("execution.begin={:#x}", v), edits: vec![(seg(1, "begin_addr"), Edit::Set(hexv(v)))] }); } }
+        if nseg > 1 { for v in [Felt::TWO.pow(20u64), Felt::TWO.pow(26u64), Felt::TWO.pow(32u64), Felt::TWO.pow(40u64), t64 - Felt::TWO, t64 - Felt::THREE] { out.push(Recipe { subj: si, label: format!("execution.begin={:#x}", v), edits: vec![(seg(1, "begin_addr"), Edit::Set(hexv(v)))] }); } }
         // one more FRI layer declared, nothing supplied for it
         let nl = cfg(&["fri", "n_layers"]);
         out.push(Recipe { subj: si, label: "redeclare:n_layers+1".into(), edits: vec![(nl.clone(), Edit::Set(hexv(felt_at(&nl) + Felt::ONE)))] });
@@ -283,9 +283,11 @@ pub fn run_malformed(args: &[String]) {
     let subs = subjects(n_toy, with_real, &mut rng);
     let recs = recipes(&subs, &mut rng, full);
     // per-subject budget for C17: events of the honest run, and K * (number of leaves)
+    let mut honest_mem: Vec<(u64, u64)> = Vec::new();
     let budgets: Vec<(u64, u64)> = subs.iter().map(|s| {
         let p: StarkProof = serde_json::from_value(s.proof.clone()).unwrap();
-        let (_, used) = verify_subject(&s.layout, &p, s.sb, None);
+        let ((_, used), peak, maxreq) = metered(|| verify_subject(&s.layout, &p, s.sb, None));
+        honest_mem.push((peak, maxreq));
         (used, 40 * s.size as u64 + 2000)
     }).collect();
     let results = par_map(&recs, n_threads(), |_, r| {
@@ -297,15 +299,18 @@ pub fn run_malformed(args: &[String]) {
         walk(&v, &mut Vec::new(), &mut leaves, &mut arrays);
         let budget = 40 * leaves.len() as u64 + 2000;
         let t0 = std::time::Instant::now();
-        let (verdict, used) = verify_subject(&s.layout, &p, s.sb, Some(if mode == "c17" { budget } else { 3_000_000 }));
+        let ((verdict, used), peak, maxreq) = metered(|| verify_subject(&s.layout, &p, s.sb, Some(if mode == "c17" { budget } else { 3_000_000 })));
         let ms = t0.elapsed().as_millis() as u64;
-        let alone = if mode == "c18" { pi_alone(&s.layout, &p) } else { Vec::new() };
-        (json!({"tag": verdict.tag(), "detail": verdict.detail(), "used": used, "budget": budget, "ms": ms, "size": leaves.len()}), alone)
+        // the validation entry points taken alone (C18: must not panic; C17: must not allocate in proportion to a declared number)
+        let (alone, apeak, amaxreq) = metered(|| pi_alone(&s.layout, &p));
+        (json!({"tag": verdict.tag(), "detail": verdict.detail(), "used": used, "budget": budget, "ms": ms, "size": leaves.len(),
+                "peak": peak.max(apeak), "maxreq": maxreq.max(amaxreq), "where": if amaxreq > maxreq { "validation entry points taken alone" } else { "verify" }}), alone)
     });
     let (mut total, mut bad) = (0u64, 0u64);
     let mut sites: std::collections::BTreeMap<String, (u64, Value)> = Default::default();
     let mut max_ratio = 0f64;
     let mut max_ms = 0u64;
+    let mut max_mem_ratio = 0f64;
     for (r, (res, alone)) in recs.iter().zip(results.iter()) {
         total += 1;
         let s = &subs[r.subj];
@@ -330,6 +335,16 @@ pub fn run_malformed(args: &[String]) {
             if ratio > max_ratio { max_ratio = ratio; }
             let ms = res["ms"].as_u64().unwrap_or(0);
             if ms > max_ms { max_ms = ms; }
+            // memory: 2 KiB per value of the proof + 1 MiB covers every honest run with a wide margin (measured: see summary.max_bytes_per_value)
+            let size = res["size"].as_u64().unwrap_or(1).max(1);
+            let (peak, maxreq) = (res["peak"].as_u64().unwrap_or(0), res["maxreq"].as_u64().unwrap_or(0));
+            let mem_budget = 2048 * size + (1 << 20);
+            let mr = peak as f64 / size as f64; if mr > max_mem_ratio { max_mem_ratio = mr; }
+            if peak > mem_budget || maxreq > mem_budget {
+                bad += 1;
+                out.line(&json!({"kind":"work","subject":s.id,"layout":s.layout,"recipe":r.label,"used":used,"budget":mem_budget,"ms":ms,
+                    "why": format!("memory: peak {} bytes, largest single request {} bytes in {} (budget 2 KiB x values + 1 MiB = {})", peak, maxreq, res["where"].as_str().unwrap_or(""), mem_budget)}));
+            }
             if tag == "fuel" || ms > 20_000 {
                 bad += 1;
                 out.line(&json!({"kind":"work","subject":s.id,"layout":s.layout,"recipe":r.label,"used":used,"budget":budget,"ms":ms,"why": if tag == "fuel" { "event budget (40 x leaves + 2000) exhausted" } else { "wall clock above 20 s" }}));
@@ -338,7 +353,8 @@ pub fn run_malformed(args: &[String]) {
     }
     for (k, (n, ex)) in &sites { out.line(&json!({"kind":"panic-site","key":k,"count":n,"example":ex})); }
     out.line(&json!({"summary": true, "mode": mode, "subjects": subs.len(), "recipes": total, "bad": bad, "honest_events": budgets.iter().map(|b| b.0).collect::<Vec<_>>(),
-                     "max_events_per_leaf": max_ratio, "max_ms": max_ms}));
+                     "max_events_per_leaf": max_ratio, "max_ms": max_ms, "max_bytes_per_value": max_mem_ratio,
+                     "honest_peak_bytes": honest_mem.iter().map(|b| b.0).collect::<Vec<_>>(), "honest_largest_request": honest_mem.iter().map(|b| b.1).collect::<Vec<_>>()}));
 }
 
 /// "crates/fri/src/layer.rs:99 in compute_next_layer (via mod.rs:2207)" -> "crates/fri/src/layer.rs:compute_next_layer"
